@@ -132,7 +132,7 @@ let () =
       let show ps = String.concat ";" (List.map (fun p -> String.concat "&" (List.map (fun h -> hex_of_bytes h.hname ^ ":" ^ hex_of_bytes h.hvalue) p.p_headers) ^ "=" ^ hex_of_bytes p.p_body) ps) in
       if parts = [] || List.exists (fun p -> p.p_headers = []) parts then print_endline "GENERR" else begin
         let g = multipart_generate parts (bytes_of_hex bd) in
-        Printf.printf "G %s | %s\n" (hex_of_bytes g) (match multipart_parse g (bytes_of_hex bd) with MOk ps -> "OK " ^ show ps | MErr -> "ERR" | MPanicWindows0 -> "PANIC") end
+        Printf.printf "G %s | %s dom=%d\n" (hex_of_bytes g) (match multipart_parse g (bytes_of_hex bd) with MOk ps -> "OK " ^ show ps | MErr -> "ERR" | MPanicWindows0 -> "PANIC") (if multipart_in_domain parts (bytes_of_hex bd) then 1 else 0) end
     | ["mp"; bd] -> (match multipart_parse [] (bytes_of_hex bd) with MOk _ -> print_endline "OK " | MErr -> print_endline "ERR" | MPanicWindows0 -> print_endline "PANIC")
     | ["mp"; bd; data] ->
       (match multipart_parse (bytes_of_hex data) (bytes_of_hex bd) with
